@@ -148,7 +148,8 @@ func (c CurlyRouter) detectWebService(requestTokens []string, webServices []*Web
 	score := -1
 	for _, each := range webServices {
 		matches, eachScore := c.computeWebserviceScore(requestTokens, each.pathExpr.tokens)
-		if matches && (eachScore > score) {
+		// equal scores: the root path decides, not the order of registration
+		if matches && (eachScore > score || (eachScore == score && each.rootPath < best.rootPath)) {
 			best = each
 			score = eachScore
 		}
